@@ -329,3 +329,52 @@ def replay_text(payload):
 # C12 ("instantiating a sub-entity ... behaves identically to placing its logic inline"): the instantiation statement must name the
 # architecture that is actually written for the entity
 contract(VRM + "EntityInst.write", ("C12",))
+
+
+# ---- headers of concurrent blocks / blocks: `-- CONCURRENT BLOCK (<name>)`, `-- Block (<name>)` --------------------------------
+# the name is chosen by the user (cohdl.concurrent_context(fn, name=...), std.block(name=...)): a line break in it must not end the comment
+def header_spec(prefix, name):
+    def spec(sx, self):
+        def holds(res):
+            if not (isinstance(res, SObj) and issubclass(res.kind, TextBlock)):
+                return False
+            lines = [l for l in res.fields["_content"] if isinstance(l, str) and l.strip()]
+            text = [l for l in lines if prefix in l or any(part in l for part in name.splitlines() if part)]
+            return bool(lines) and all(l.startswith("--") and "\n" not in l and "\r" not in l for l in lines) and any(prefix in l for l in lines) and all(any(part in l for l in lines) for part in name.splitlines() if part)
+
+        return C.Pred(holds, "every header line is a comment line, none contains a line break, the name is kept")
+
+    return spec
+
+
+for _qual, _cls, _prefix, _mk in (
+    ("Concurrent.write", VR.Concurrent, "CONCURRENT BLOCK", lambda name: SObj(VR.Concurrent, _name=name, _attributes={}, _stmts=[], _scope=SObj(VhdlScope))),
+    ("Block.write", VR.Block, "Block (", lambda name: SObj(VR.Block, _name=name, _attributes={}, _subblocks=[], _scope=SObj(VhdlScope))),
+):
+    _hc = contract(VRM + _qual, PROPS)
+    for _name in ("logic", "first\nsecond <= injected;", "a\r\nb"):
+        c = Case(f"name:{_name!r}", [Built([], (lambda n, mk: lambda env: mk(n))(_name, _mk), lambda a: "None", lambda a: None)], header_spec(_prefix, _name))
+        c.native = False
+        c.custom_replay = "contracts.c06_text.replay_block_name"
+        _hc.cases.append(c)
+
+_BLOCK_NAME_DESIGN = '''
+import cohdl
+from cohdl import Entity, Port, Bit, std
+class BlockName(Entity):
+    a = Port.input(Bit)
+    o = Port.output(Bit)
+    def architecture(self):
+        def logic():
+            self.o <<= self.a
+        cohdl.concurrent_context(logic, name="first\\nsecond <= injected;")
+t = std.VhdlCompiler.to_string(BlockName)
+print("OUTSIDE-COMMENT" if any(l.strip().startswith("second <= injected") for l in t.splitlines()) else "INSIDE-COMMENT")
+'''
+
+
+def replay_block_name(payload):
+    from contracts.c06_extra import _run_design
+
+    rc, out = _run_design(_BLOCK_NAME_DESIGN)
+    return {"reproduced": rc == 0 and "OUTSIDE-COMMENT" in out, "detail": "a context name with a line break in the header comment of its block: " + out[-60:]}
